@@ -78,6 +78,7 @@ TOL = 1e-6
 # all harness time steps are dyadic so that virtual instants are exact floats (see ASSUMPTIONS)
 ADV = [0.0, 1 / 1024, 1 / 64, 0.125, 0.25, 0.625, 1.0, 2.5, 6.0]
 HIT_DT = [0.0, 1 / 1024, 0.125]
+RECLOSE = [0.0, 1 / 16, 0.125, 0.625, 1.0, 2.0]      # around eos_active_ms_before_repulse (100 / 500 ms)
 
 
 # ---------------------------------------------------------------------------------------------
@@ -159,8 +160,20 @@ def _gen_ops(rng, tier, cfg):
                 else:
                     ops.append(["dev", "a", i, rng.choice(["enable", "disable"]), rng.choice(["call", "event"])])
         elif k < 0.44:
-            ops.append(["repulse", rng.choice(rep) if rep and rng.random() < 0.8 else rng.randrange(nf),
-                        rng.random() < 0.4])
+            fi = rng.choice(rep) if rep and rng.random() < 0.8 else rng.randrange(nf)
+            release = rng.random() < 0.4
+            # after the repulse the flipper may reach EOS again and stay there for a while (RECLOSE index)
+            reclose = rng.choice([0, 0, 1, 2, 3, 4, 5])
+            ops.append(["repulse", fi, release, reclose])
+            if reclose and not release and rng.random() < 0.5:
+                # ... and the flipper gets disabled while the player still holds the button
+                c = rng.choice(["drain", "end_ball", "end_game", "tilt", "svc_in", "disable", "disable"])
+                if c == "tilt":
+                    ops.append(["tilt", rng.choice(["tilt", "slam"]), True])
+                elif c == "disable":
+                    ops.append(["dev", "f", fi, "disable", rng.choice(["call", "event"])])
+                else:
+                    ops.append([c])
         elif k < 0.54:
             i = rng.randrange(nf)
             which = rng.choice(["btn", "btn", "eos"]) if cfg["flippers"][i]["eos"] else "btn"
@@ -871,6 +884,13 @@ def _run(case, mon):
                     vm.advance(0.125 if d["cfg"]["eos_ms"] <= 100 else 0.625)
                     touch()
                     set_switch(d["eos"], 0)
+                    hold = RECLOSE[(op[3] if len(op) > 3 else 0) % len(RECLOSE)]
+                    if hold:
+                        # the repulse brings the flipper back up: EOS closes again and stays closed
+                        vm.advance(1 / 64)
+                        touch()
+                        set_switch(d["eos"], 1)
+                        vm.advance(hold)
                 if op[2]:
                     vm.advance(1 / 16)
                     touch()
